@@ -85,6 +85,7 @@ func GovProfile(seed int64, out *Recorder, nOps int) *Chain {
 	}
 	aliases := []string{"", "alpha", "beta", "cert0", "gamma"}
 	lastAddAlias := ""
+	var lastAddTarget sdk.AccAddress
 	certKinds := []string{"identity", "general", "auditing", "proof", "compilation", "oracleoperator", "shieldpoolcreator"}
 	for i := 0; i < nOps && c.Halted == ""; i++ {
 		// once in a while somebody tries to pay coins into the module's account through the VM (a call carrying value): the
@@ -158,6 +159,14 @@ func GovProfile(seed int64, out *Recorder, nOps int) *Chain {
 				}
 				if add && alias != "" {
 					lastAddAlias = alias
+				}
+				// two additions of the SAME account pending at once: the one executed second fails in its handler although it was
+				// valid when submitted (what happens to its deposits then is C11's matter)
+				if add && lastAddTarget != nil && r6.Intn(3) == 0 {
+					target = lastAddTarget
+				}
+				if add {
+					lastAddTarget = target
 				}
 				content := certtypes.NewCertifierUpdateProposal("t", "d", target, alias, ac.Addr, aor)
 				// bech32 may be written in upper case: the same address, another string
